@@ -44,7 +44,9 @@
 #include "vtrace.h"
 
 #define BUFSZ (1 << 20)
-#define C2S_LIMIT 200   /* the client spins while the notification socket is full: the single thread must never get there */
+#define C2S_LIMIT 200   /* the client spins while the notification socket is full: inside msg_process (where the single
+                         * thread cannot run the server) and for sendv_recv the harness never lets it get there.  At top
+                         * level the spin is resolved the way it is in a real system: see send() below */
 
 /* ------------------------------------------------------------------ poll table */
 struct pent { int used, fd, events; void *data; qb_ipcs_dispatch_fn_t fn; };
@@ -102,6 +104,12 @@ static char *cbq[MAXCB];
 static int cbh, cbt;
 
 static void exec_line(char *line);
+static void do_dispatch(int forced, int revents);
+static void vt_obs_end(void);
+
+/* a top-level qb_ipcc_send / sendv in progress: id, len, hash of the request; set while the library call runs */
+static int snd_active, snd_id, snd_len, snd_stalled, snd_spins;
+static uint32_t snd_hash;
 
 /* ------------------------------------------------------------------ messages */
 static uint32_t fnv(const void *p, size_t n)
@@ -278,6 +286,32 @@ static void do_dispatch(int forced, int revents)
 	run_jobs();
 }
 
+/* The library writes the request's notification byte with send(); when the socket is full it retries until
+ * the server has read some.  Here the server is the same thread: a refused byte during a top-level client send is
+ * recorded ("CStall", the request is already in the ring) and the server's dispatch function is run from here --
+ * the concurrently running server process -- before the library is told EAGAIN.  If the server application has
+ * requests switched off it switches them on again (SRate 1) after two fruitless rounds.                       */
+ssize_t send(int fd, const void *buf, size_t n, int flags)
+{
+	ssize_t r = sendto(fd, buf, n, flags, NULL, 0);
+	if (r < 0 && errno == EAGAIN && snd_active && cli && conn && fd == cli->setup.u.us.sock && !in_dispatch) {
+		if (!snd_stalled) {
+			snd_stalled = 1;
+			vt_ev("CStall"); vt_lb(); vt_i(snd_id); vt_i(snd_len); vt_i(snd_hash); vt_le(); vt_res(); vt_obs_end();
+		}
+		if (++snd_spins > 40) { errno = EAGAIN; return -1; }     /* no progress: the watchdog ends the run ("Hang") */
+		long before = ndlv_req;
+		do_dispatch(0, 0);
+		if (ndlv_req == before && (snd_spins % 3) == 2 && svc) {
+			qb_ipcs_request_rate_limit(svc, QB_IPCS_RATE_NORMAL);
+			vt_ev("SRate"); vt_i(1); vt_res(); vt_obs_end();
+		}
+		errno = EAGAIN;
+		return -1;
+	}
+	return r;
+}
+
 /* message lengths: a number, or M / M-1 / M+1 relative to the negotiated maximum */
 static int parse_len(const struct vt_line *L, int i)
 {
@@ -303,14 +337,19 @@ static void exec_op(struct vt_line *L)
 	if (!strcmp(op, "Connect")) { do_connect(L->tok[1], (int)vt_argi(L, 2)); return; }
 	if (!strcmp(op, "Reset")) { do_reset(); vt_simple("Reset"); return; }
 	if (!cli || !conn) { vt_ev("Skip"); vt_res(); vt_obs_end(); return; }
+	/* the client is inside a blocked send: it makes no other call meanwhile */
+	if (snd_active && op[0] == 'C') { vt_ev("Skip"); vt_res(); vt_obs_end(); return; }
 	if (!strcmp(op, "CSend") || !strcmp(op, "CSendv") || !strcmp(op, "CSendvRecv")) {
 		int len = parse_len(L, 1), id;
 		long rc;
-		if (is_shm && nacc_req - ndlv_req >= C2S_LIMIT) { vt_ev("Skip"); vt_res(); vt_obs_end(); return; }
+		if (is_shm && (in_dispatch || !strcmp(op, "CSendvRecv")) && nacc_req - ndlv_req >= C2S_LIMIT) { vt_ev("Skip"); vt_res(); vt_obs_end(); return; }
 		id = (int)(++nreq);
 		uint32_t h = mk_msg(sbuf, id, len);
+		snd_id = id; snd_len = len; snd_hash = h; snd_stalled = 0; snd_spins = 0;
 		if (!strcmp(op, "CSend")) {
+			snd_active = 1;
 			rc = qb_ipcc_send(cli, sbuf, len);
+			snd_active = 0;
 			if (rc > 0) nacc_req++;
 			c_result(op, id, len, h, rc, NULL, 0, 0);
 		} else {
@@ -319,7 +358,9 @@ static void exec_op(struct vt_line *L)
 			iov[0].iov_base = sbuf; iov[0].iov_len = cut;
 			iov[1].iov_base = sbuf + cut; iov[1].iov_len = len - cut;
 			if (!strcmp(op, "CSendv")) {
+				snd_active = 1;
 				rc = qb_ipcc_sendv(cli, iov, 2);
+				snd_active = 0;
 				if (rc > 0) nacc_req++;
 				c_result(op, id, len, h, rc, NULL, 0, 0);
 			} else {
